@@ -322,6 +322,9 @@ def main_check(prop, tier, seed, module, replay=None):
             ctx.notes["regenerated"] = translate.run_all(only=meta.get("translators"))
         except translate.TranslateError as e:
             ctx.proof_failures.append({"theorem": "translator", "msg": str(e)[:500]})
+        except Exception as e:  # noqa — a translator that chokes on a changed source is a broken tie as well
+            import traceback
+            ctx.proof_failures.append({"theorem": "translator", "msg": traceback.format_exc()[-800:]})
         targets = ["Pyrealb.Props." + prop, ctx.driver] + meta.get("extra_modules", [])
         ok, log, fails = lake_build(targets)
         build_ok = ok
